@@ -780,15 +780,16 @@ class C13(Prop):
         # a correctly tagged item under another tag is not a tagged item of the type (informed round 9: the tagged byte-level decoder
         # retried on the content of a wrong tag)
         for t, tag in TAGGED.items():
-            body = g.venc(g.wire(t))
-            for outer in (0, 61, 55799, 24, 2**32, tag + 1):
-                ops.append(mk('dect %s b%s' % (t, (refcbor.head(6, outer) + refcbor.head(6, tag) + body).hex()), k='outer-tag', must_reject=True))
-                ops.append(mk('dect %s b%s' % (t, (refcbor.head(6, outer) + refcbor.head(6, outer) + refcbor.head(6, tag) + body).hex()), k='outer-tag', must_reject=True))
+          for body in (bytes.fromhex({'CoseSign': '8443a10126a0f6818340a04101', 'CoseSign1': '8443a10126a0f64101', 'CoseEncrypt': '8440a0f6818340a0f6', 'CoseEncrypt0': '8340a0f6', 'CoseMac': '8540a0f64101818340a0f6', 'CoseMac0': '8440a0f64101'}[t]), g.venc(g.wire(t))):
+              for outer in (0, 61, 55799, 24, 2**32, tag + 1):
+                  ops.append(mk('dect %s b%s' % (t, (refcbor.head(6, outer) + refcbor.head(6, tag) + body).hex()), k='outer-tag', must_reject=True))
+                  ops.append(mk('dect %s b%s' % (t, (refcbor.head(6, outer) + refcbor.head(6, outer) + refcbor.head(6, tag) + body).hex()), k='outer-tag', must_reject=True))
         # tag numbers that alias the registered one under a narrowing to 8 / 16 / 32 bits (informed round 11: `t as u32 != TAG as u32`)
+        SIMPLE = {'CoseSign': '8443a10126a0f6818340a04101', 'CoseSign1': '8443a10126a0f64101', 'CoseEncrypt': '8440a0f6818340a0f6', 'CoseEncrypt0': '8340a0f6', 'CoseMac': '8540a0f64101818340a0f6', 'CoseMac0': '8440a0f64101'}
         for t, tag in TAGGED.items():
-            body = g.venc(g.wire(t))
-            for tg in (tag + 2**8, tag + 2**16, tag + 2**32, tag + 2**33, tag + 2**63, tag + (r.randrange(1, 2**31) << 32), (tag << 8) | tag, tag << 32, 2**64 - tag):
-                for hd in head_variants(6, tg): ops.append(mk('dect %s b%s' % (t, (hd + body).hex()), k='alias-tag', must_reject=True))
+          for body in (bytes.fromhex(SIMPLE[t]), g.venc(g.wire(t)), refcbor.encode(g.wire(t))):
+              for tg in (tag + 2**8, tag + 2**16, tag + 2**32, tag + 2**33, tag + 2**63, tag + (r.randrange(1, 2**31) << 32), (tag << 8) | tag, tag << 32, 2**64 - tag):
+                  for hd in head_variants(6, tg): ops.append(mk('dect %s b%s' % (t, (hd + body).hex()), k='alias-tag', must_reject=True))
         # nesting around the parser's budget: the byte-level decoders and parse-then-convert agree there too (informed-adversary
         # round: `from_reader_with_recursion_limit(slice.len())` in read_to_value accepts what ciborium's own entry point refuses)
         for d in (254, 255, 256, 257, 258, 300, 1000):
